@@ -5,7 +5,7 @@ pub mod model;
 use super::expr::model as expr;
 use model::AsValue;
 use std::collections::HashSet;
-use xml_dom::{self as dom, AsExpandedName, AsNode, AsStringValue, Node};
+use xml_dom::{self as dom, AsExpandedName, AsNode, AsStringValue, CharacterData, Node};
 use xml_nom as nom;
 
 pub fn document(
@@ -621,6 +621,19 @@ fn attributes(node: dom::XmlNode) -> Vec<dom::XmlNode> {
     nodes
 }
 
+/// The document type declaration is not a node of the XPath data model, and a text node always
+/// has at least one character (`<a><![CDATA[]]></a>` has no child).
+fn in_data_model(node: &dom::XmlNode) -> bool {
+    let empty = |data: dom::error::Result<String>| data.map(|v| v.is_empty()).unwrap_or(false);
+    match node {
+        dom::XmlNode::DocumentType(_) => false,
+        dom::XmlNode::Text(v) => !empty(v.data()),
+        dom::XmlNode::CData(v) => !empty(v.data()),
+        dom::XmlNode::ExpandedText(v) => !empty(v.data()),
+        _ => true,
+    }
+}
+
 fn child(node: dom::XmlNode) -> Vec<dom::XmlNode> {
     let mut nodes = vec![];
 
@@ -630,8 +643,7 @@ fn child(node: dom::XmlNode) -> Vec<dom::XmlNode> {
     }
 
     for c in node.child_nodes().iter() {
-        // the document type declaration is not a node of the XPath data model
-        if !matches!(c, dom::XmlNode::DocumentType(_)) {
+        if in_data_model(&c) {
             nodes.push(c.clone());
         }
     }
@@ -689,7 +701,7 @@ fn following_sibling(node: dom::XmlNode) -> Vec<dom::XmlNode> {
 
     let mut next = node.next_sibling();
     while let Some(n) = next {
-        if !matches!(n, dom::XmlNode::DocumentType(_)) {
+        if in_data_model(&n) {
             nodes.push(n.clone());
         }
         next = n.next_sibling();
@@ -738,7 +750,7 @@ fn preceding_sibling(node: dom::XmlNode) -> Vec<dom::XmlNode> {
 
     let mut prev = node.previous_sibling();
     while let Some(p) = prev {
-        if !matches!(p, dom::XmlNode::DocumentType(_)) {
+        if in_data_model(&p) {
             nodes.push(p.clone());
         }
         prev = p.previous_sibling();
